@@ -16,6 +16,7 @@ import numpy as np
 from vlib import family, harness, prove, replay, runner, selftest, symarray as S
 from vlib.desc import expand, shape
 
+BUDGET = runner.ReplayBudget(12)
 PROP = "C13"
 FAMS = {"id": 40, "elementwise": 70, "reduce": 40, "dot": 40, "get_at": 25, "preserve": 30, "argfind": 20, "update": 25}
 THOROUGH_MULT = 10
@@ -293,7 +294,9 @@ def main():
     solver_s = 0.0
     for (case, sub, sigs, _), r in zip(items, results):
         st_ = r["status"]
-        if st_ == "violation?" or st_ == "discipline-violation":
+        if (st_ == "violation?" or st_ == "discipline-violation") and not BUDGET.take():
+            st_ = "sat-not-replayed"
+        elif st_ == "violation?" or st_ == "discipline-violation":
             conc = replay.clamp_coords(case, replay.conc_arrays(case, r.get("model_inputs") or [np.zeros(shape(expand(e)), dtype=object) for e in case["ins"]]))
             path = write_replay(case, r, conc)
             ok, out = replay.run_script(path)
